@@ -55,6 +55,72 @@ CHECKS = {
             PROC_NOTE, PROC_TECH, "DESIGN.md §4.4, §7 C11"),
 }
 
+SPAWN_NOTE = ("Trusted: the descriptor-table model of spec/SpawnEnv.tla (checked on every launch against the table the "
+              "new program image reports), (inode, access mode, offset) as identity of an open file description, "
+              "interposition in parent and forked child (canary-checked), the reporting child vchild, /proc. Runs as "
+              "root. Scenario spaces are enumerated families + seeded samples, not all inputs.")
+SPAWN_TECH = ("TLA+ descriptor-table/launch spec (SpawnEnv.tla, Spawn.tla) with TLC; real Popen::create on the real "
+              "kernel with every libc call logged / fault-injected in parent and forked child and a self-reporting "
+              "child; each recorded launch validated by TLC against SpawnTrace.tla whose monitors decide")
+API_NOTE = ("Trusted: pipe identity by inode+direction as reported by stage programs, the watchdog's wait-for evidence "
+            "(a hang counts only when the library waits for a child blocked on a pipe whose other end only the library "
+            "holds, or a child holds a library pipe end above fd 2), interposition, TLC.")
+API_TECH = ("TLA+ specs (ApiEnv.tla; Pipeline.tla / Drop.tla model-checked with TLC); real builder API on the real kernel "
+            "with reporting stage programs; each recorded scenario validated by TLC against ApiTrace.tla whose "
+            "monitors decide")
+CHECKS.update({
+    "C05": ("spawn", "All 5x5x5 redirection triples (+ one file shared by several streams, repeated spawns, spawns from "
+            "threads that exit) are launched for real; TLC replays the logged pipe/fcntl/dup2/close/fork/exec calls on "
+            "the descriptor-table model, requires the predicted table to equal the child's self-report, and checks "
+            "that fds 0-2 are the requested open file descriptions, handles exist iff piped, invalid merges are "
+            "logic errors without a fork, and the parent's own fds 0-2 are never closed/altered.",
+            SPAWN_NOTE, SPAWN_TECH, "DESIGN.md §4.5, §7 C05"),
+    "C06": ("spawn", "argv (empty, blank, quotes, non-UTF-8, long, many), executable override, environment lists with "
+            "duplicates in every position (later wins, order kept; TLC computes the expected list), cwd, all 8 "
+            "setuid/setgid/setpgid combinations as root, NUL in every position: the child's self-report must equal "
+            "what the configuration demands; NUL must be rejected before any fork.",
+            SPAWN_NOTE, SPAWN_TECH, "DESIGN.md §4.5, §7 C06"),
+    "C07": ("spawn", "Fault plan: the k-th pipe/fcntl, fork, and each child-side step (chdir, dup2, setuid, setgid, "
+            "setpgid, execve) is failed with sampled errnos, crossed with stream configurations and detached; plus "
+            "natural failures (missing / non-executable / directory / garbage program, bad cwd). TLC checks: Ok iff "
+            "the image started, Err carries the errno of the failing step, no child (zombie or running) and no "
+            "descriptor of the attempt is left, the forked child never escapes back into the caller.",
+            SPAWN_NOTE, SPAWN_TECH, "DESIGN.md §4.5, §7 C07"),
+    "C08": ("spawn", "Launches while 0-3 earlier Popens and all their pipe ends stay alive, from threads, repeated, and "
+            "every stage of pipelines under every terminator: no child holds (above fd 2) an end of a library-created "
+            "pipe other than a duplicate of its own standard stream's end; a hang is attributed only on wait-for "
+            "evidence (a child keeps a library pipe end open).", SPAWN_NOTE, SPAWN_TECH, "DESIGN.md §4.5, §7 C08"),
+    "C15": ("spawn", "PATH shapes (1-5 entries; empty, duplicate, long, mode-000 entries; only-empty values) x candidate "
+            "kinds (startable, missing, non-executable, directory, exec-format error) on real directory trees; names "
+            "with a slash, empty and unset PATH, executable override. TLC computes the first startable entry from the "
+            "configuration and compares with the executable that reported in (/proc/self/exe); nothing startable => "
+            "OS error and nothing runs.", SPAWN_NOTE, SPAWN_TECH, "DESIGN.md §4.8, §7 C15"),
+    "C17": ("spawn", "A counting global allocator, armed in the forked child, feeds the allocation count into every "
+            "logged child-side system call; TLC requires it to be 0 at execve/_exit for long names, PATH shapes with "
+            "the longest entry first/last, long cwd (> 384 bytes), big argv/env, all stream configurations, and on "
+            "failing exec paths.", SPAWN_NOTE, SPAWN_TECH, "DESIGN.md §4.5, §7 C17"),
+    "C18": ("spawn", "Every blockable signal alone and random subsets blocked in the spawning thread (also short-lived "
+            "threads), parent SIGPIPE ignored / default: the child's signal mask and SIGPIPE disposition are sampled "
+            "by an .init_array constructor before its runtime starts; TLC requires an empty mask and default SIGPIPE, "
+            "also for every pipeline stage (C13 scenarios).", SPAWN_NOTE, SPAWN_TECH, "DESIGN.md §4.5, §7 C18"),
+    "C12": ("api", "Every handle kind (Popen with pipes, stream_stdout/stderr/stdin adapters of commands and pipelines, "
+            "join, capture) x child behaviour (exits early/late, reads to EOF, writes 300 KB, killed by signal) x drop "
+            "point (nothing / some / all read) x detached: after a non-detached handle is gone all its children are "
+            "reaped; a detached drop issues no waitpid and leaves the child; a drop that hangs is a violation when the "
+            "watchdog proves the wait-for cycle through the handle's own pipe. Drop.tla model-checks Rust's drop order.",
+            API_NOTE, API_TECH, "DESIGN.md §4.4/4.6, §7 C12"),
+    "C13": ("api", "Pipelines of 2-5 reporting stages in every composition shape (left-assoc, pipeline|pipeline, "
+            "iterator), stdin inherit/pipe/data/file, stdout inherit/pipe/file, all six terminators, 0..20000 lines: "
+            "stage i's stdout and stage i+1's stdin are the two ends of one library pipe used by nobody else, input "
+            "reaches only stage 1, output comes only from stage n, output = composition of the stage tags in order, all "
+            "stderr lines arrive in the shared sink, status = last stage's, everything reaped at return.",
+            API_NOTE, API_TECH, "DESIGN.md §4.6, §7 C13"),
+    "C14": ("api", "The k-th command is not startable for every k, n in 2..4, stdin kind, terminator, detached or not: "
+            "the error (ENOENT) is returned, exactly k+1 forks happen and only the first k stages ever report, the call "
+            "does not hang (wait-for evidence), no zombie / running child / descriptor is left.",
+            API_NOTE, API_TECH, "DESIGN.md §4.6, §7 C14"),
+})
+
 ENGINES = [
     {"name": "comm", "path": "/verif/lib/c_comm.py", "serves_properties": ["C01", "C02", "C03", "C04"],
      "kind_free_text": "TLC model checking of spec/Comm.tla + trace validation (spec/CommTrace.tla) of the real "
@@ -64,6 +130,14 @@ ENGINES = [
                        "virtual child pid and clock (harness/src/psim.rs, proc_replay)"},
 ]
 
+ENGINES += [
+    {"name": "spawn", "path": "/verif/lib/c_spawn.py", "serves_properties": ["C05", "C06", "C07", "C08", "C15", "C17", "C18"],
+     "kind_free_text": "real-kernel launches with logged/fault-injected libc calls (harness/src/slog.rs, spawn_replay, "
+                       "vchild) validated by TLC against spec/SpawnTrace.tla (descriptor-table model SpawnEnv.tla)"},
+    {"name": "api", "path": "/verif/lib/c_api.py", "serves_properties": ["C12", "C13", "C14"],
+     "kind_free_text": "builder-level scenarios (pipelines, dropped handles) on the real kernel (api_replay, vchild "
+                       "stages, wait-for watchdog) validated by TLC against spec/ApiTrace.tla"},
+]
 NA_REASON = {}
 DEFAULT_NA = ("check not built yet (build phase in progress); will be claimed once its TLA+ spec and conformance "
               "harness exist")
